@@ -10,6 +10,8 @@
    Only statements + `exact`; proofs live in proofs/RandProofs.v. *)
 From Coq Require Import List NArith Bool Arith.
 From Tink Require Import Bytes Manager ManagerProofs Rand RandProofs.
+From Tink Require Import AeadFrame EtM RandLink RandProofs2.
+From Tink Require Mldsa SlhdsaAddr SlhdsaBase Slhdsa.
 Import ListNotations.
 Open Scope N_scope.
 
@@ -267,3 +269,431 @@ Example C20_nonvacuous :
             [[0;0;0;7]; [0;0;0;9]; [20;21;22;23;24;25;26;27;28;29;30;31;32;33;34;35]])],
           mkR [9; 7] [99]).
 Proof. vm_compute. reflexivity. Qed.
+
+
+(* ======================================================================== *)
+(* STRETCH ROUND: the tape semantics linked to the models of the operations *)
+(* (model/RandLink.v, proofs/RandProofs2.v).                                *)
+(* ======================================================================== *)
+
+(* 8. NONCES NEVER REPEAT UNLESS THE TAPE DOES.
+   (a) For every AEAD key type the ciphertext that the C01 model
+   (AeadFrame.v / GcmSiv.v / EtM.v / Xaes.v) produces with IV := the window
+   that CEncrypt draws is  prefix ‖ window ‖ body: the window sits, byte for
+   byte, at the position the wire format gives the nonce (for XAES-GCM:
+   salt ‖ iv). *)
+Theorem C20_ciphertext_carries_the_drawn_nonce :
+  forall (A : aead_prims) k prefix iv p ad ct,
+    length iv = nonce_len (scheme_of k) ->
+    c01_encrypt A k prefix iv p ad = Ok ct ->
+    firstn (length prefix) ct = prefix /\
+    nonce_field (scheme_of k) prefix ct = iv /\
+    firstn (length prefix + nonce_len (scheme_of k)) ct = prefix ++ iv /\
+    (forall j, (j < nonce_len (scheme_of k))%nat -> nth (length prefix + j) ct 0 = nth j iv 0).
+Proof. exact c01_encrypt_nonce_position. Qed.
+Print Assumptions C20_ciphertext_carries_the_drawn_nonce.
+
+(* ... and the window is what the standard AEAD gets as its nonce (XAES: the
+   first saltsize bytes key the derivation, the last 12 are the GCM nonce) *)
+Theorem C20_drawn_nonce_is_the_seal_nonce :
+  forall (A : aead_prims) prefix key w p ad ct,
+    (c01_encrypt A (AKGcm key) prefix w p ad = Ok ct -> ct = prefix ++ w ++ ap_gcm_seal A key w ad p) /\
+    (c01_encrypt A (AKChaCha key) prefix w p ad = Ok ct -> ct = prefix ++ w ++ ap_cc_seal A key w ad p) /\
+    (c01_encrypt A (AKXChaCha key) prefix w p ad = Ok ct -> ct = prefix ++ w ++ ap_xcc_seal A key w ad p) /\
+    (forall salt, c01_encrypt A (AKXaes salt key) prefix w p ad = Ok ct ->
+       exists pmk, Xaes.derive_per_message_key (ap_aes A) key (firstn salt w) = Ok pmk /\
+         ct = prefix ++ w ++ ap_gcm_seal A pmk (skipn salt w) ad p).
+Proof.
+  intros A prefix key w p ad ct.
+  split; [apply gcm_window_use|]. split; [apply chacha_window_use|]. split; [apply xchacha_window_use|].
+  intros salt. apply xaes_window_use.
+Qed.
+Print Assumptions C20_drawn_nonce_is_the_seal_nonce.
+
+(* (b) Encrypt under the tape (read the nonce, run the C01 model) is Rand's
+   CEncrypt followed by the C01 model; a whole history of encryptions under
+   one key is Rand.run on the same tape, whose outputs prefix ‖ window (what
+   the correspondence run compares with the real ciphertexts) are the initial
+   segments of the C01 ciphertexts. *)
+Theorem C20_encrypt_under_tape_is_rand_then_c01 :
+  forall (A : aead_prims) pub k prefix p ad s o iv s',
+    encrypt_tape A k prefix p ad s = Some (o, iv, s') <->
+    (exec pub (CEncrypt (scheme_of k) prefix) s = Some (OBytes (prefix ++ iv), [iv], s') /\
+     o = c01_encrypt A k prefix iv p ad).
+Proof. exact encrypt_tape_spec. Qed.
+Print Assumptions C20_encrypt_under_tape_is_rand_then_c01.
+
+Theorem C20_encrypt_history_is_rand_history :
+  forall (A : aead_prims) pub k prefix msgs s res s',
+    encrypt_run A k prefix msgs s = Some (res, s') ->
+    run pub (repeat (CEncrypt (scheme_of k) prefix) (length msgs)) s
+    = Some (map (fun r => (OBytes (prefix ++ snd r), [snd r])) res, s') /\
+    forall i p ad, nth_error msgs i = Some (p, ad) ->
+      let n := nonce_len (scheme_of k) in
+      let w := firstn n (skipn (i * n) (r_tape s)) in
+      length w = n /\ nth_error res i = Some (c01_encrypt A k prefix w p ad, w).
+Proof.
+  intros A pub k prefix msgs s res s' H. split; [exact (encrypt_run_is_rand_run A pub k prefix msgs s res s' H)|].
+  destruct (encrypt_run_ith A k prefix msgs s res s' H) as (_ & _ & _ & _ & X). exact X.
+Qed.
+Print Assumptions C20_encrypt_history_is_rand_history.
+
+(* (c) In any history of encryptions under one key - any plaintexts, any
+   associated data, all six schemes - the nonce fields of two ciphertexts are
+   equal IF AND ONLY IF their tape windows are equal; ciphertexts of calls that
+   drew different windows are different. *)
+Theorem C20_nonces_repeat_iff_windows_repeat :
+  forall (A : aead_prims) k prefix msgs s res s' i j ci cj wi wj,
+    encrypt_run A k prefix msgs s = Some (res, s') ->
+    nth_error res i = Some (Ok ci, wi) -> nth_error res j = Some (Ok cj, wj) ->
+    let n := nonce_len (scheme_of k) in
+    wi = firstn n (skipn (i * n) (r_tape s)) /\ wj = firstn n (skipn (j * n) (r_tape s)) /\
+    nonce_field (scheme_of k) prefix ci = wi /\ nonce_field (scheme_of k) prefix cj = wj /\
+    (nonce_field (scheme_of k) prefix ci = nonce_field (scheme_of k) prefix cj <-> wi = wj) /\
+    (ci = cj -> wi = wj).
+Proof. exact encrypt_run_nonces_equal_iff. Qed.
+Print Assumptions C20_nonces_repeat_iff_windows_repeat.
+
+(* the iff version of C20_distinct_windows_distinct_nonces_in_a_sequence *)
+Theorem C20_fields_equal_iff_windows_equal_in_a_sequence :
+  forall pub sch p k s res s' i j o1 o2 t1 t2,
+    run pub (repeat (CEncrypt sch p) k) s = Some (res, s') ->
+    (i < k)%nat -> (j < k)%nat ->
+    nth_error res i = Some (o1, t1) -> nth_error res j = Some (o2, t2) ->
+    (o1 = o2 <->
+     firstn (nonce_len sch) (skipn (i * nonce_len sch) (r_tape s)) =
+     firstn (nonce_len sch) (skipn (j * nonce_len sch) (r_tape s))).
+Proof. exact encrypt_sequence_iff. Qed.
+Print Assumptions C20_fields_equal_iff_windows_equal_in_a_sequence.
+
+(* Non-vacuity of 8: toy primitives (Seal = plaintext ‖ two bytes, AES = xor
+   with the key's first byte, HMAC = 32 constant bytes); for one key of each
+   of the six types, two encryptions of different messages on a 72-byte
+   counting tape succeed, and each ciphertext carries its own window. *)
+Definition ex_seal (k n ad p : bytes) : bytes := p ++ [N.of_nat (length ad); 170].
+Definition ex_prims : aead_prims :=
+  mkPrims ex_seal ex_seal ex_seal (fun k b => map (N.lxor (nth 0 k 0)) b) (fun k m => repeat 7 32%nat).
+Definition ex_keys : list aead_key :=
+  [AKGcm (repeat 1 16%nat); AKGcmSiv (repeat 2 16%nat); AKGcmSiv (repeat 2 32%nat);
+   AKChaCha (repeat 3 32%nat); AKXChaCha (repeat 4 32%nat);
+   AKCtrHmac (mkEtm (repeat 5 16%nat) (repeat 6 32%nat) 12 10);
+   AKCtrHmac (mkEtm (repeat 5 32%nat) (repeat 6 32%nat) 16 32);
+   AKXaes 12 (repeat 8 32%nat); AKXaes 8 (repeat 8 32%nat)].
+Definition ex_tape : bytes := map N.of_nat (seq 0 72).
+Definition ex_prefix : bytes := [1; 0; 0; 0; 5].
+Definition ex_check (k : aead_key) : bool :=
+  match encrypt_run ex_prims k ex_prefix [([1; 2; 3], [9]); ([4; 5], [])] (mkR [] ex_tape) with
+  | Some ([(Ok c1, w1); (Ok c2, w2)], _) =>
+      beq (nonce_field (scheme_of k) ex_prefix c1) w1 && beq (nonce_field (scheme_of k) ex_prefix c2) w2
+      && negb (beq w1 w2) && beq w1 (firstn (nonce_len (scheme_of k)) ex_tape)
+      && Nat.ltb (length ex_prefix + nonce_len (scheme_of k) + 3) (length c1)
+  | _ => false
+  end.
+Example C20_nonvacuous_nonce_link :
+  forallb ex_check ex_keys = true /\
+  encrypt_run ex_prims (AKXaes 8 (repeat 8 32%nat)) ex_prefix [([1; 2; 3], [9])] (mkR [] (firstn 21 ex_tape))
+  = Some ([(Ok ([1; 0; 0; 0; 5] ++ firstn 20 ex_tape ++ [1; 2; 3; 1; 170]), firstn 20 ex_tape)], mkR [] [20]).
+Proof. split; vm_compute; reflexivity. Qed.
+
+(* 9. HYBRID ENCAPSULATIONS.  `pub` (the base-point multiplication of the
+   standard library) stays an arbitrary function; what it must satisfy is
+   named.
+   (a) Two encapsulations of a history of X25519-HPKE encryptions (for X-Wing:
+   the X25519 halves) are equal iff the public keys of their 32-byte windows
+   are equal. *)
+Theorem C20_encapsulations_equal_iff_public_keys_equal :
+  forall pub p k s res s' i j o1 o2 t1 t2,
+    run pub (repeat (CHpkeEncrypt p) k) s = Some (res, s') ->
+    (i < k)%nat -> (j < k)%nat ->
+    nth_error res i = Some (o1, t1) -> nth_error res j = Some (o2, t2) ->
+    let wi := firstn 32 (skipn (i * 32) (r_tape s)) in
+    let wj := firstn 32 (skipn (j * 32) (r_tape s)) in
+    o1 = OBytes (p ++ pub wi) /\ o2 = OBytes (p ++ pub wj) /\ t1 = [wi] /\ t2 = [wj] /\
+    (o1 = o2 <-> pub wi = pub wj).
+Proof. exact hpke_enc_equal_iff. Qed.
+Print Assumptions C20_encapsulations_equal_iff_public_keys_equal.
+
+(* (b) THE REDUCTION: a repeated encapsulation is a repeated tape window or a
+   collision of pub on two different 32-byte scalars. *)
+Theorem C20_repeated_encapsulation_is_a_collision :
+  forall pub p k s res s' i j o t1 t2,
+    run pub (repeat (CHpkeEncrypt p) k) s = Some (res, s') ->
+    (i < k)%nat -> (j < k)%nat ->
+    nth_error res i = Some (o, t1) -> nth_error res j = Some (o, t2) ->
+    let wi := firstn 32 (skipn (i * 32) (r_tape s)) in
+    let wj := firstn 32 (skipn (j * 32) (r_tape s)) in
+    wi = wj \/ collision pub wi wj.
+Proof. exact hpke_enc_repeat_reduction. Qed.
+Print Assumptions C20_repeated_encapsulation_is_a_collision.
+
+(* (c) Under the explicit law "pub is injective on D" (D: scalars in
+   canonical form - [1, n-1] for a prime-order NIST curve; for X25519 one
+   representative per clamping class and per +-class modulo the group order,
+   see (d)) encapsulations that drew distinct canonical windows are distinct. *)
+Theorem C20_distinct_randomness_distinct_encapsulations :
+  forall pub (D : bytes -> Prop) p k s res s' i j o1 o2 t1 t2,
+    inj_on D pub ->
+    run pub (repeat (CHpkeEncrypt p) k) s = Some (res, s') ->
+    (i < k)%nat -> (j < k)%nat ->
+    nth_error res i = Some (o1, t1) -> nth_error res j = Some (o2, t2) ->
+    let wi := firstn 32 (skipn (i * 32) (r_tape s)) in
+    let wj := firstn 32 (skipn (j * 32) (r_tape s)) in
+    D wi -> D wj -> wi <> wj -> o1 <> o2.
+Proof. exact hpke_distinct_randomness_distinct_enc. Qed.
+Print Assumptions C20_distinct_randomness_distinct_encapsulations.
+
+(* (d) The literal clause "encapsulations drawing distinct randomness are
+   distinct" is REFUTED for every pub that clamps its scalar as RFC 7748
+   prescribes (crypto/ecdh X25519 does): the windows 00..00 and 01 00..00
+   give one encapsulation.  Not a defect of tink-go: the scalar space of
+   X25519 is the clamped one (2^251 values), the collision probability of two
+   uniform windows stays 2^-251. *)
+Theorem C20_distinct_unclamped_randomness_refuted :
+  forall pub p, clamp_law pub ->
+    exists s res s' o w0 w1,
+      run pub (repeat (CHpkeEncrypt p) 2) s = Some (res, s') /\
+      res = [(o, [w0]); (o, [w1])] /\ w0 <> w1 /\ clamp w0 = clamp w1.
+Proof. exact hpke_unclamped_randomness_refuted. Qed.
+Print Assumptions C20_distinct_unclamped_randomness_refuted.
+
+(* (e) X-Wing (enc = ML-KEM-768 ciphertext ‖ X25519 public key) repeats only
+   if BOTH halves repeat: each half is a repeated input or a collision of its
+   primitive.  m = ML-KEM's encapsulation randomness, drawn by the standard
+   library's DRBG (a parameter: it does not come from crypto/rand.Reader). *)
+Theorem C20_xwing_repeats_only_if_both_halves_repeat :
+  forall (mlkem_ct : bytes -> bytes -> bytes) pub pkM m m' skx skx',
+    length (mlkem_ct pkM m) = length (mlkem_ct pkM m') ->
+    (xwing_enc mlkem_ct pub pkM m skx = xwing_enc mlkem_ct pub pkM m' skx' <->
+     mlkem_ct pkM m = mlkem_ct pkM m' /\ pub skx = pub skx') /\
+    (xwing_enc mlkem_ct pub pkM m skx = xwing_enc mlkem_ct pub pkM m' skx' ->
+     (m = m' \/ collision (mlkem_ct pkM) m m') /\ (skx = skx' \/ collision pub skx skx')).
+Proof.
+  intros mlkem_ct pub pkM m m' skx skx' L. split.
+  - apply xwing_enc_equal_iff; exact L.
+  - apply xwing_enc_repeat_reduction; exact L.
+Qed.
+Print Assumptions C20_xwing_repeats_only_if_both_halves_repeat.
+
+(* (f) ML-KEM and X-Wing: m determines ct - two encapsulations that decrypt
+   to their own m (the FIPS 203 correctness law, stated for the two m at
+   hand) are different when the m are, whatever the X25519 half does. *)
+Theorem C20_mlkem_distinct_m_distinct_ct :
+  forall (mlkem_ct : bytes -> bytes -> bytes) (dec : bytes -> bytes -> option bytes) pub pkM dk m m' skx skx',
+    dec dk (mlkem_ct pkM m) = Some m -> dec dk (mlkem_ct pkM m') = Some m' -> m <> m' ->
+    mlkem_ct pkM m <> mlkem_ct pkM m' /\
+    (length (mlkem_ct pkM m) = length (mlkem_ct pkM m') ->
+     xwing_enc mlkem_ct pub pkM m skx <> xwing_enc mlkem_ct pub pkM m' skx').
+Proof.
+  intros mlkem_ct dec pub pkM dk m m' skx skx' D1 D2 Hne. split.
+  - exact (mlkem_distinct_m_distinct_ct mlkem_ct dec pkM dk m m' D1 D2 Hne).
+  - intros L. exact (xwing_distinct_m_distinct_enc mlkem_ct dec pub pkM dk m m' skx skx' L D1 D2 Hne).
+Qed.
+Print Assumptions C20_mlkem_distinct_m_distinct_ct.
+
+(* Non-vacuity of 9: an injective pub (byte reversal) satisfies the law of
+   (c); a pub that clamps satisfies the law of (d), and the collision of (b)
+   is then a real one (two different 32-byte scalars, 1-byte images); a toy
+   ML-KEM (ct = m reversed, dec = reversal) satisfies the premises of (f). *)
+Definition ex_pub (w : bytes) : bytes := rev w.
+Definition ex_pub_clamped (w : bytes) : bytes := [N.land (nth 0 w 0) 248].
+Example C20_nonvacuous_hybrid :
+  inj_on (fun _ => True) ex_pub /\
+  (exists res s', run ex_pub (repeat (CHpkeEncrypt [1; 0; 0; 0; 5]) 2) (mkR [] ex_tape) = Some (res, s') /\
+     firstn 32 ex_tape <> firstn 32 (skipn 32 ex_tape)) /\
+  clamp_law ex_pub_clamped /\
+  collision ex_pub_clamped (zeros 32) (1 :: zeros 31) /\
+  (let ct := fun (pk m : bytes) => rev m in let dec := fun (dk c : bytes) => Some (rev c) in
+   dec [] (ct [] [1; 2]) = Some [1; 2] /\ dec [] (ct [] [2; 2]) = Some [2; 2] /\
+   length (ct [] [1; 2]) = length (ct [] [2; 2])).
+Proof.
+  split. { intros a b _ _ H. unfold ex_pub in H. rewrite <- (rev_involutive a), H. apply rev_involutive. }
+  split. { eexists. eexists. split; [vm_compute; reflexivity|vm_compute; discriminate]. }
+  split. { intros w _. unfold ex_pub_clamped, clamp. cbn [nth]. rewrite <- N.land_assoc. reflexivity. }
+  split. { split; [discriminate|reflexivity]. }
+  repeat split.
+Qed.
+
+(* 10. KEY IDS: THE DRAW IS A BIJECTION.
+   (a) Exact characterisation (iff) of a successful newRandomKeyID: the tape
+   is  skipped windows (all in use) ‖ accepted window (4 bytes, not in use) ‖
+   rest - the loop stops at the first unused window, whatever precedes it. *)
+Theorem C20_new_key_id_iff :
+  forall u t w tr u' t',
+    draw_id u t = Some (w, tr, u', t') <->
+    exists skipped,
+      tr = skipped ++ [w] /\
+      Forall (fun x => length x = 4%nat /\ In (be_val x) u) skipped /\
+      length w = 4%nat /\ ~ In (be_val w) u /\ u' = be_val w :: u /\
+      t = concat tr ++ t'.
+Proof. exact draw_id_iff. Qed.
+Print Assumptions C20_new_key_id_iff.
+
+(* (b) Every unused id of the 32-bit range can be drawn, by exactly its
+   big-endian window ... *)
+Theorem C20_every_unused_id_can_be_drawn :
+  forall u id t, id < 2 ^ 32 -> ~ In id u ->
+    draw_id u (be_bytes 4 id ++ t) = Some (be_bytes 4 id, [be_bytes 4 id], id :: u, t).
+Proof. exact draw_id_hits. Qed.
+Print Assumptions C20_every_unused_id_can_be_drawn.
+
+(* ... a first window is accepted at once iff its value is unused, and
+   window <-> id is a bijection (be_val / be_bytes 4) between the well-formed
+   4-byte windows and [0, 2^32): the id has the distribution of the first
+   window conditioned on "unused" - "uniform over the 32-bit space minus the
+   used ids" in the only form a deterministic tape model can state. *)
+Theorem C20_first_window_id_bijection :
+  forall u w t, wfb w -> length w = 4%nat ->
+    (draw_id u (w ++ t) = Some (w, [w], be_val w :: u, t) <-> ~ In (be_val w) u) /\
+    be_val w < 2 ^ 32 /\ be_bytes 4 (be_val w) = w.
+Proof. exact draw_id_first_window_bijection. Qed.
+Print Assumptions C20_first_window_id_bijection.
+
+(* (c) The set of ids newRandomKeyID can return over all well-formed tapes is
+   exactly [0, 2^32) minus the ids in use. *)
+Theorem C20_drawable_ids_are_exactly_the_unused_ones :
+  forall u id,
+    (exists t w tr u' t', wfb t /\ draw_id u t = Some (w, tr, u', t') /\ be_val w = id)
+    <-> (id < 2 ^ 32 /\ ~ In id u).
+Proof. exact draw_id_image. Qed.
+Print Assumptions C20_drawable_ids_are_exactly_the_unused_ones.
+
+(* (d) Termination: the rejection loop fails (runs off the tape) iff every
+   complete 4-byte word of the tape is an id in use; as soon as one unused
+   word is on the tape it returns, having rejected only used ones. *)
+Theorem C20_id_loop_terminates_at_first_unused_word :
+  forall u t,
+    (draw_id u t = None <-> Forall (fun x => In x u) (id_words t)) /\
+    (Exists (fun x => ~ In x u) (id_words t) ->
+     exists w tr u' t', draw_id u t = Some (w, tr, u', t') /\ ~ In (be_val w) u /\
+       Forall (fun x => In (be_val x) u) (removelast tr)).
+Proof.
+  intros u t. split; [apply draw_id_none_iff|apply draw_id_terminates_at_first_unused].
+Qed.
+Print Assumptions C20_id_loop_terminates_at_first_unused_word.
+
+Example C20_nonvacuous_ids :
+  draw_id [7; 9] (be_bytes 4 4294967295 ++ [99]) = Some ([255; 255; 255; 255], [[255; 255; 255; 255]], [4294967295; 7; 9], [99]) /\
+  draw_id [7; 9] ([0; 0; 0; 7; 0; 0; 0; 9; 0; 0; 0; 7; 1; 2; 3; 4; 5]) = Some ([1; 2; 3; 4], [[0; 0; 0; 7]; [0; 0; 0; 9]; [0; 0; 0; 7]; [1; 2; 3; 4]], [16909060; 7; 9], [5]) /\
+  draw_id [7; 9] [0; 0; 0; 7; 0; 0; 0; 9; 0; 0; 0] = None /\
+  id_words [0; 0; 0; 7; 0; 0; 0; 9; 0; 0; 0] = [7; 9].
+Proof. repeat split; vm_compute; reflexivity. Qed.
+
+(* 11. RANDOMIZED SIGNATURES: what the tape model can carry.
+   (a) In a history of k signatures the i-th randomizer (ML-DSA rnd, 32
+   bytes; SLH-DSA addrnd, n bytes; RSA-PSS salt, salt-length bytes) is the
+   fresh window tape[i n, (i+1) n), full length, and nothing else is read. *)
+Theorem C20_ith_signature_randomizer_is_ith_window :
+  forall pub n k s res s',
+    run pub (repeat (CSign n) k) s = Some (res, s') ->
+    forall i, (i < k)%nat ->
+      let w := firstn n (skipn (i * n) (r_tape s)) in
+      nth_error res i = Some (ONone, [w]) /\ length w = n.
+Proof. exact sign_sequence. Qed.
+Print Assumptions C20_ith_signature_randomizer_is_ith_window.
+
+(* (b) ML-DSA: Sign under the tape is CSign 32 followed by the C10 model
+   (model/Mldsa.v tinkSign) with rnd := the window; all 32 bytes enter the
+   computation, and only through rho'' = SHAKE256(K ‖ rnd ‖ mu, 64), where
+   they sit between K and mu: windows that differ give different hash inputs;
+   equal rho'' from different windows is a SHAKE256 collision.  Whether the
+   SIGNATURES then differ (the rejection loop could in principle map two
+   rho'' to one signature) is left to the harness (class SIGN: outputs of
+   repeated signing of one message pairwise different, read sizes 32). *)
+Theorem C20_mldsa_rnd_is_the_window_and_enters_whole :
+  forall (shake128 shake256 : bytes -> nat -> bytes) (P : Mldsa.params) pub fuel prefix skEnc data s sig rnd s',
+    mldsa_sign_tape shake128 shake256 P fuel prefix skEnc data s = Some (sig, rnd, s') ->
+    exec pub (CSign 32) s = Some (ONone, [rnd], s') /\
+    rnd = firstn 32 (r_tape s) /\ length rnd = 32%nat /\
+    sig = Mldsa.obind (Mldsa.skDecode P skEnc) (fun sk =>
+            let mu := Mldsa.computeMu shake256 (Mldsa.sk_tr sk) (Mldsa.formatMsg data []) in
+            Mldsa.obind (mldsa_sign_from_rhopp shake128 shake256 P fuel sk mu
+                           (shake256 (Mldsa.sk_K sk ++ rnd ++ mu) 64%nat))
+                        (fun sg => Some (prefix ++ sg))).
+Proof.
+  intros shake128 shake256 P pub fuel prefix skEnc data s sig rnd s' H.
+  destruct (mldsa_sign_tape_window _ _ _ _ _ _ _ _ _ _ _ H) as (A & B & _).
+  apply (mldsa_sign_tape_spec shake128 shake256 P pub) in H. destruct H as [E ->].
+  split; [exact E|]. split; [exact A|]. split; [exact B|].
+  apply mldsa_sign_uses_whole_rnd.
+Qed.
+Print Assumptions C20_mldsa_rnd_is_the_window_and_enters_whole.
+
+Theorem C20_mldsa_distinct_rnd_distinct_hash_inputs :
+  forall (shake256 : bytes -> nat -> bytes) sk mu rnd rnd',
+    (Mldsa.sk_K sk ++ rnd ++ mu = Mldsa.sk_K sk ++ rnd' ++ mu <-> rnd = rnd') /\
+    (mldsa_rhopp shake256 sk mu rnd = mldsa_rhopp shake256 sk mu rnd' ->
+     rnd = rnd' \/ collision (fun x => shake256 x 64%nat) (Mldsa.sk_K sk ++ rnd ++ mu) (Mldsa.sk_K sk ++ rnd' ++ mu)).
+Proof.
+  intros shake256 sk mu rnd rnd'. split; [apply mldsa_rhopp_input_injective|apply mldsa_equal_rhopp_reduction].
+Qed.
+Print Assumptions C20_mldsa_distinct_rnd_distinct_hash_inputs.
+
+(* (c) SLH-DSA: Sign under the tape is CSign n followed by the C16 model
+   (model/Slhdsa.v tink_sign) with addrnd := the window; the signature starts
+   with R = PRF_msg(SK.prf, addrnd, M'), so two EQUAL signatures of one
+   message under one key were made with the same addrnd, or PRF_msg collides
+   on two different addrnd (law: PRF_msg outputs n bytes). *)
+Theorem C20_slhdsa_addrnd_is_the_window :
+  forall (SP : SlhdsaBase.params) (HS : SlhdsaBase.hashes) pub tv id sk msg s sig addrnd s',
+    slhdsa_sign_tape SP HS tv id sk msg s = Some (sig, addrnd, s') <->
+    (exec pub (CSign (SlhdsaBase.p_n SP)) s = Some (ONone, [addrnd], s') /\
+     sig = Slhdsa.tink_sign SP HS tv id sk msg addrnd).
+Proof. exact slhdsa_sign_tape_spec. Qed.
+Print Assumptions C20_slhdsa_addrnd_is_the_window.
+
+Theorem C20_slhdsa_equal_signatures_reduction :
+  forall (SP : SlhdsaBase.params) (HS : SlhdsaBase.hashes) tv id sk msg a a' sig,
+    (forall k r m, length (SlhdsaBase.hPrfMsg HS k r m) = SlhdsaBase.p_n SP) ->
+    Slhdsa.tink_sign SP HS tv id sk msg a = Some sig ->
+    Slhdsa.tink_sign SP HS tv id sk msg a' = Some sig ->
+    a = a' \/ collision (fun r => slhdsa_R SP HS sk msg r) a a'.
+Proof. exact slhdsa_equal_sigs_reduction. Qed.
+Print Assumptions C20_slhdsa_equal_signatures_reduction.
+
+(* RSA-PSS (salt drawn by crypto/rsa) and ECDSA (nonce derived inside
+   crypto/ecdsa from the key, the digest and reader bytes): only (a) - the
+   read size for RSA-PSS - is modelled; "repeated signatures differ" is the
+   harness's direct check (classes SIGN rsapss, LOOSE ecdsa). *)
+
+(* Non-vacuity of 11: on a toy SLH-DSA (the checksum hash family of C16's
+   example, n = 2) two signatures of one message under one key with windows
+   [8;8] and [8;9] exist, start with prefix ‖ R and differ; with a PRF_msg
+   that ignores opt_rand the two signatures are EQUAL and the collision
+   disjunct of the reduction is a real one. *)
+Definition toyP : SlhdsaBase.params := SlhdsaBase.mkParams 2 4 2 2 2 2 2 3.
+Definition toy_sum (l : bytes) : N := fold_left (fun acc b => (acc * 31 + b + 1) mod 65521) l 7.
+Definition toy_mix (l : bytes) : bytes := let s := toy_sum l in [s mod 256; s / 256].
+Definition toyHS (prf : bytes -> bytes -> bytes -> bytes) : SlhdsaBase.hashes :=
+  SlhdsaBase.mkHashes
+    (fun r s t m => let x := toy_sum (r ++ s ++ t ++ m) in [x mod 256; (3 * x + 1) mod 256; (5 * x + 2) mod 256])
+    (fun p s a => toy_mix (p ++ SlhdsaAddr.adrs_bytes a ++ s))
+    prf
+    (fun p a x => toy_mix (p ++ SlhdsaAddr.compress a ++ x))
+    (fun p a x => toy_mix (p ++ SlhdsaAddr.adrs_bytes a ++ x))
+    (fun p a x => toy_mix (p ++ SlhdsaAddr.adrs_bytes a ++ x)).
+Definition good_prf (s o m : bytes) := toy_mix (s ++ o ++ m).
+Definition bad_prf (s o m : bytes) := toy_mix (s ++ m).
+Definition toy_sk := Slhdsa.keygen toyP (toyHS good_prf) [1; 2] [3; 4] [5; 6].
+Example C20_nonvacuous_signatures :
+  (forall k r m, length (SlhdsaBase.hPrfMsg (toyHS good_prf) k r m) = SlhdsaBase.p_n toyP) /\
+  (forall k r m, length (SlhdsaBase.hPrfMsg (toyHS bad_prf) k r m) = SlhdsaBase.p_n toyP) /\
+  match slhdsa_sign_tape toyP (toyHS good_prf) true 7 toy_sk [9; 9] (mkR [] [8; 8; 8; 9]),
+        slhdsa_sign_tape toyP (toyHS good_prf) true 7 toy_sk [9; 9] (mkR [] [8; 9]) with
+  | Some (Some s1, a1, _), Some (Some s2, a2, _) =>
+      a1 = [8; 8] /\ a2 = [8; 9] /\ s1 <> s2 /\ firstn 5 s1 = [1; 0; 0; 0; 7]
+      /\ firstn 2 (skipn 5 s1) = slhdsa_R toyP (toyHS good_prf) toy_sk [9; 9] [8; 8]
+  | _, _ => False
+  end /\
+  (exists sg, Slhdsa.tink_sign toyP (toyHS bad_prf) true 7 toy_sk [9; 9] [8; 8] = Some sg /\
+              Slhdsa.tink_sign toyP (toyHS bad_prf) true 7 toy_sk [9; 9] [8; 9] = Some sg /\
+              collision (fun r => slhdsa_R toyP (toyHS bad_prf) toy_sk [9; 9] r) [8; 8] [8; 9]) /\
+  (* ML-DSA: the window is read even when the key does not decode *)
+  mldsa_sign_tape (fun _ _ => []) (fun _ _ => []) Mldsa.MLDSA44 1 [] [] [1] (mkR [] (firstn 33 ex_tape))
+  = Some (None, firstn 32 ex_tape, mkR [] [32]).
+Proof.
+  split; [reflexivity|]. split; [reflexivity|]. split.
+  - vm_compute. repeat split; discriminate.
+  - split.
+    + eexists. split; [vm_compute; reflexivity|]. split; [vm_compute; reflexivity|]. split; [discriminate|reflexivity].
+    + vm_compute. reflexivity.
+Qed.
